@@ -366,6 +366,13 @@ func (h *c12Hist) login(ai int, kind string) {
 		st.Exp = "403, or 429 only if justified"
 	}
 	h.rep.Event(fmt.Sprintf("login_status_%d", status))
+	if !a.tainted && a.mode == c12Run && len(a.run) >= max && t == a.run[len(a.run)-1]+block+1 &&
+		status != http.StatusTooManyRequests {
+		h.rep.Event("attempts_evaluated_1s_after_block_end")
+	}
+	if !a.tainted && a.mode == c12Run && len(a.run) < max && t == a.run[0]+c12Window-1 && status == http.StatusForbidden {
+		h.rep.Event("failures_counted_1s_before_window_end")
+	}
 
 	if status != http.StatusOK && hasCookie {
 		h.violate("login:session-cookie-on-rejected-attempt",
@@ -507,8 +514,10 @@ func (h *c12Hist) garble(kinds []string) (val, kind string) {
 	for {
 		kind = kinds[h.rng.Intn(len(kinds))]
 		var base string
+		baseName := "a random 32-digit hex string"
 		if len(h.toks) > 0 {
-			base = h.toks[h.rng.Intn(len(h.toks))].val
+			bi := h.rng.Intn(len(h.toks))
+			base, baseName = h.toks[bi].val, fmt.Sprintf("the value of tok#%d", bi)
 		} else {
 			base = c12RandHex(h.rng, 32)
 		}
@@ -542,6 +551,11 @@ func (h *c12Hist) garble(kinds []string) (val, kind string) {
 			}
 		}
 		if !clash {
+			switch kind {
+			case "random-hex", "short", "empty":
+			default:
+				kind += " of " + baseName
+			}
 			return val, kind
 		}
 	}
@@ -579,7 +593,7 @@ func (h *c12Hist) authReq() {
 		} else {
 			val, kind = h.garble(c12GarbleAll)
 		}
-		h.canon = append(h.canon, "A:"+kind)
+		h.canon = append(h.canon, "A:"+strings.SplitN(kind, " of ", 2)[0])
 		st := h.step("request", raddr, path+" cookie="+kind+" "+val)
 		st.Exp = "reject (not an issued token)"
 		ran, code, pan := h.doAuth(raddr, path, with, val)
@@ -591,7 +605,7 @@ func (h *c12Hist) authReq() {
 		st.Obs = fmt.Sprintf("handler_ran=%v status=%d", ran, code)
 		h.rep.Event("unknown_token_checks")
 		if ran {
-			h.violate("session:unissued-token-accepted:"+kind,
+			h.violate("session:unissued-token-accepted:"+strings.SplitN(kind, " of ", 2)[0],
 				"a request with a cookie that is not an issued token ("+kind+") was authenticated", nil)
 		}
 		return
@@ -671,6 +685,13 @@ func (h *c12Hist) authReq() {
 			return
 		}
 	}
+	if exp == "either" {
+		if ran {
+			h.rep.Event("accepted_past_initial_expiry(refreshed)")
+		} else {
+			h.rep.Event("rejected_past_initial_expiry")
+		}
+	}
 	if ran {
 		k.lastOK = t
 	}
@@ -680,7 +701,7 @@ func (h *c12Hist) logout() {
 	raddr := h.remoteAddr(h.addrs[h.rng.Intn(len(h.addrs))].ip)
 	if len(h.toks) == 0 || h.rng.Intn(6) == 0 {
 		val, kind := h.garble([]string{"flip-last-digit", "truncated", "extended-hex", "extended-odd", "extended-nonhex", "random-hex", "short"})
-		h.canon = append(h.canon, "O:"+kind)
+		h.canon = append(h.canon, "O:"+strings.SplitN(kind, " of ", 2)[0])
 		st := h.step("logout", raddr, "cookie="+kind+" "+val)
 		code, pan := h.doLogout(raddr, val)
 		if pan != nil {
